@@ -229,3 +229,49 @@ fn kb_days_to_ymd() {
     let days: i64 = era * 146097 + doe - 719468;
     assert!(days == n as i64);
 }
+
+/// stand-in for the movie-header builder in the harness below (the real one is proved in units boxes_leaf / boxes_tree): a 16-byte box
+/// whose payload records how many video samples and chunk offsets it was given
+fn stub_moov(_video: &Mp4VideoTrack, video_tables: &SampleTables, _audio: Option<(&Mp4AudioTrack, &SampleTables)>,
+             _video_config: &VideoConfig, _metadata: Option<&Metadata>) -> Vec<u8> {
+    let mut v: Vec<u8> = Vec::new();
+    v.extend_from_slice(&16u32.to_be_bytes());
+    v.extend_from_slice(b"moov");
+    v.extend_from_slice(&(video_tables.sizes.len() as u32).to_be_bytes());
+    v.extend_from_slice(&(if video_tables.chunk_offsets.is_empty() { 0 } else { video_tables.chunk_offsets[0] }).to_be_bytes());
+    v
+}
+fn rd32(b: &[u8], o: usize) -> usize { ((b[o] as usize) << 24) | ((b[o + 1] as usize) << 16) | ((b[o + 2] as usize) << 8) | (b[o + 3] as usize) }
+const K_VP9_KEY: [u8; 10] = [0x49, 0x83, 0x42, 0x00, 0x00, 0x10, 0x10, 0x00, 0x00, 0x00];
+const K_VP9_DELTA: [u8; 10] = [0x49, 0x83, 0x42, 0x10, 0x00, 0x10, 0x10, 0x00, 0x00, 0x00];
+
+/// BOUNDED end-to-end on the unmodified writer (video-only VP9; a REJECTED first call - delta frame before any keyframe -, then one
+/// keyframe at any u64 time; both layouts; build_moov_box stubbed): the finished file is ftyp, then
+/// mdat and moov in the order the layout prescribes, the box sizes tile the file, the mdat header declares exactly the accepted
+/// payload bytes (a rejected call contributes nothing), and the first chunk offset points at the first payload byte.
+#[kani::proof]
+#[kani::unwind(6)]
+#[kani::stub(crate::invariant_ppt::__assert_invariant_impl, stub_inv)]
+#[kani::stub(build_moov_box, stub_moov)]
+fn kb_finalize_tiling() {
+    let fast: bool = kani::any();
+    let mut w: Mp4Writer<Vec<u8>> = Mp4Writer::new(Vec::new(), VideoCodec::Vp9);
+    match w.write_video_sample(0, &K_VP9_DELTA, false) { Ok(()) => assert!(false), Err(e) => core::mem::forget(e) }
+    let t0: u64 = kani::any();
+    assert!(w.write_video_sample(t0, &K_VP9_KEY, true).is_ok());
+    let n = 1usize;
+    let video = Mp4VideoTrack { width: 16, height: 16 };
+    match w.finalize(&video, None, fast) { Ok(()) => {}, Err(e) => { core::mem::forget(e); assert!(false); } }
+    let out = &w.writer;
+    let payload = 10 * n;
+    assert!(out.len() == 24 + 8 + payload + 16);
+    assert!(rd32(out, 0) == 24 && out[4] == b'f' && out[5] == b't' && out[6] == b'y' && out[7] == b'p');
+    let (mdat_at, moov_at) = if fast { (24 + 16, 24) } else { (24, 24 + 8 + payload) };
+    assert!(rd32(out, mdat_at) == 8 + payload && out[mdat_at + 4] == b'm' && out[mdat_at + 5] == b'd' && out[mdat_at + 6] == b'a' && out[mdat_at + 7] == b't');
+    assert!(rd32(out, moov_at) == 16 && out[moov_at + 4] == b'm' && out[moov_at + 5] == b'o' && out[moov_at + 6] == b'o' && out[moov_at + 7] == b'v');
+    assert!(rd32(out, moov_at + 8) == n);                       // the tables describe exactly the accepted samples
+    assert!(rd32(out, moov_at + 12) == mdat_at + 8);            // first chunk offset -> first payload byte
+    assert!(out[mdat_at + 8] == K_VP9_KEY[0] && out[mdat_at + 8 + 3] == K_VP9_KEY[3]);
+    if n == 2 { assert!(out[mdat_at + 18 + 3] == K_VP9_DELTA[3]); }
+    core::mem::forget(w);
+}
